@@ -71,6 +71,15 @@ CLAIMS.update({
         text="Interpreter side: guest f -> guest g -> host h with recording listeners, all parameter/result values and the trap decision symbolic: the event log is well nested with exactly one before and one after/abort per call, "
              "carries the actual parameters and results, the stack iterator lists the real chain callee-outward at every before-event, results equal the listener-free run; recursion to every depth 0..39 followed by a trap "
              "gives every frame its abort. wazevo's listener trampolines and native stack iterator are outside this claim."),
+    "C15": dict(level="model_checking", engine="gosym", technique=E1_TECH, design_ref="DESIGN.md §5 C15",
+        text="Each of the 46 exported WASI functions is run with arbitrary argument words on a real store-registered instance whose memory is arbitrary (0..65536 pages, symbolic contents) over a file system stub "
+             "that answers arbitrarily within the sys.FS/File contract: a Go run-time panic (index, slice, nil, map, conversion) on any path is a violation, the result is an errno or proc_exit's exit error, "
+             "allocations stay within 16x memory + 1 MiB (per-allocation obligation), the preopen stays in the table. Loop counts (iovecs, subscriptions, path bytes, dirents) are <= 1-2 or so large that the range "
+             "cannot fit the memory (including products that wrap 32 bits); the range in between is outside the claim. Memory-region non-interference per function is not yet asserted."),
+    "C18": dict(level="model_checking", engine="gosym", technique=E1_TECH + " (self-composition: two contexts, host sources unconstrained)", design_ref="DESIGN.md §5 C18",
+        text="Two system contexts built by the real NewModuleConfig().toSysContext(): every host source the default configuration does not replace (time.now, sleep, OS entropy) is an unconstrained symbol or cuts the path in the executor, "
+             "so equality of the two contexts' readings is non-interference: wall clock and monotonic clock equal the documented fixed sequence for the first 3 readings, random bytes are equal, no args/environ, "
+             "stdin empty, stdout discards, nothing pre-opened. math/rand's generator is executed from source (seed 42); readings beyond the third and whole-guest traces are outside the claim."),
 })
 
 NOT_APPLICABLE = {
